@@ -80,7 +80,7 @@ func (s *Session) faultKind() string {
 func runC19(s *Session, tier string) string {
 	t := s.t
 	kind := pick(t, "rhp4", "rhp2", "rhp3", "gateway", "rhp4-overlimit", "rhp2-overlimit", "rhp3-overlimit", "rhp4", "rhp2", "rhp3", "gateway",
-		"rhp4-maxima", "rhp4-free-sectors", "rhp2-wrongkey", "rhp3-wrongkey", "gateway-mismatch")
+		"rhp4-maxima", "rhp4-free-sectors", "rhp4-batch", "rhp2-wrongkey", "rhp3-wrongkey", "gateway-mismatch")
 	switch kind {
 	case "rhp4", "rhp4-overlimit":
 		mode := "random"
@@ -97,6 +97,14 @@ func runC19(s *Session, tier string) string {
 		s.run(20000)
 	case "rhp4-maxima":
 		steps := buildScript4(t, "maxima")
+		s.plan.chunk = pick(t, "all", "random")
+		runRHP4(s, steps)
+		s.run(2000)
+	case "rhp4-batch":
+		steps := buildScript4(t, "batch")
+		if len(steps) == 0 {
+			s.ea.inc("rpc4.batch-refused-by-validate")
+		}
 		s.plan.chunk = pick(t, "all", "random")
 		runRHP4(s, steps)
 		s.run(2000)
@@ -137,20 +145,28 @@ func runC19(s *Session, tier string) string {
 		if kind == "gateway-mismatch" {
 			mismatch = pick(t, "genesis", "unique-id", "net-address")
 		}
+		// announced addresses: usually short, sometimes as long as the handshake's
+		// header limit (32+8+128 bytes of header, 8 of them the string prefix) allows
+		addrLen := [2]int{13, 13}
+		for i := range addrLen {
+			if t.Chance(1, 3) {
+				addrLen[i] = []int{64, 112, 113, 119, 120}[t.Choose(5)]
+			}
+		}
 		var total int64 = 3000
 		for _, ex := range exs {
 			total += int64(len(ex.reqEnc)+len(ex.respEnc)) + 3000
 		}
 		s.drawPlan(kind == "gateway" && t.Chance(2, 3), total/2)
-		if s.plan.flipAt >= 0 && s.plan.flipAt < 160 {
+		if plain := int64(160 + addrLen[0] + addrLen[1]); s.plan.flipAt >= 0 && s.plan.flipAt < plain {
 			// the version/header exchange before the mux is plaintext and makes
 			// no integrity claim; keep bit flips to the encrypted part
-			s.plan.flipAt += 160
+			s.plan.flipAt += plain
 		}
 		if s.plan.chunk == "byte" {
 			s.plan.chunk = "small"
 		}
-		runGateway(s, exs, mismatch)
+		runGateway(s, exs, mismatch, addrLen)
 		s.run(40000)
 		if mismatch != "" {
 			kind += "-" + mismatch
